@@ -202,4 +202,58 @@ pub fn history<const CAP: u32, const PRE: usize, const REP: usize, const YLD: us
     cover!(total > 0, "at least one item was injected");
 }
 
+/// Native confirmation for the MIR-level unwinding check (lib/mirdrop.py): a fill callback that panics for
+/// one item of a push / an extend; afterwards every item that was created must have been dropped exactly once.
+/// NUCLEO_VERIF_PANIC = "push" or "extend:<k>" (the callback panics for the k-th item of a batch of three).
+#[cfg(all(test, not(kani)))]
+#[test]
+fn panic_probe() {
+    let mode = std::env::var("NUCLEO_VERIF_PANIC").unwrap_or_else(|_| "push".to_string());
+    reset_drops();
+    let v: boxcar::Vec<Item> = boxcar::Vec::with_capacity(0, 1);
+    let ok_fill = |_: &Item, cols: &mut [Utf32String]| {
+        cols[0] = Utf32String::default();
+    };
+    v.push(Item { id: 0, payload: 0 }, ok_fill);
+    let mut created = 1usize;
+    if mode == "push" {
+        let r = std::panic::catch_unwind(std::panic::AssertUnwindSafe(|| {
+            v.push(Item { id: 1, payload: 1 }, |_: &Item, _: &mut [Utf32String]| panic!("fill callback"));
+        }));
+        assert!(r.is_err());
+        created = 2;
+    } else {
+        let k: u8 = mode.split(':').nth(1).and_then(|x| x.parse().ok()).unwrap_or(0);
+        let r = std::panic::catch_unwind(std::panic::AssertUnwindSafe(|| {
+            v.extend(
+                Lying { reported: 3, yielded: 3, next: 0, first_id: 1, payloads: [0; MAXID] },
+                |it: &Item, cols: &mut [Utf32String]| {
+                    if it.id == 1 + k {
+                        panic!("fill callback")
+                    }
+                    cols[0] = Utf32String::default();
+                },
+            );
+        }));
+        assert!(r.is_err());
+        // items 1 ..= 1 + k were created by the iterator before the panic
+        created = 2 + k as usize;
+    }
+    v.push(Item { id: created as u8, payload: 7 }, ok_fill);
+    created += 1;
+    drop(v);
+    let mut bad = Vec::new();
+    for id in 0..MAXID {
+        let want = if id < created { 1 } else { 0 };
+        if drops(id) != want {
+            bad.push(format!("item {id}: dropped {} times, expected {want}", drops(id)));
+        }
+    }
+    if bad.is_empty() {
+        println!("PANIC-PROBE ok");
+    } else {
+        println!("PANIC-PROBE bad {}", bad.join("; "));
+    }
+}
+
 include!(concat!(env!("NUCLEO_VERIF_GEN"), "/nucleo_boxcar.rs"));
